@@ -2,6 +2,7 @@ package core
 
 import (
 	stdErrors "errors"
+	"fmt"
 
 	schema "github.com/jsightapi/jsight-schema-core"
 	"github.com/jsightapi/jsight-schema-core/kit"
@@ -14,16 +15,25 @@ import (
 )
 
 func (core *JApiCore) collectUserTypes() *jerr.JApiError {
-	core.collectRawUserTypes()
+	if je := core.collectRawUserTypes(); je != nil {
+		return je
+	}
 	return core.compileUserTypes()
 }
 
-func (core *JApiCore) collectRawUserTypes() {
+func (core *JApiCore) collectRawUserTypes() *jerr.JApiError {
 	for _, d := range core.directivesWithPastes {
 		if d.Type() == directive.Type {
+			// One directive per name is kept. A second TYPE with the same name must be refused
+			// here: the schemas are built from the kept directives, and the catalog would look
+			// up the schema of the first one with the notation of the other.
+			if name := d.NamedParameter("Name"); name != "" && core.rawUserTypes.Has(name) {
+				return d.KeywordError(fmt.Sprintf(jerr.DuplicateNames, name))
+			}
 			core.AddRawUserType(d)
 		}
 	}
+	return nil
 }
 
 func (core *JApiCore) compileUserTypes() *jerr.JApiError {
